@@ -4,13 +4,17 @@
     * manual_event_loop / single_thread_context (model Proto/EventLoop, invariant Lemmas/EventLoop):
       any number of producer threads, items, stop() callers, every interleaving;
     * trampoline_scheduler (model Proto/Trampoline, lemmas Lemmas/Trampoline): every nesting tree,
-      every maximum depth.
+      every maximum depth;
+    * atomic_intrusive_queue (model Proto/AtomicQueue, invariant Lemmas/AtomicQueue): any number of
+      producers and items, both consumer loops, initially active or inactive, every interleaving of
+      the individual atomic operations.
   The per-instance theorems (deadlock freedom, end states) proved by kernel-evaluated closure are in
   Props/C06_loop, C06_loop2 (event loop), C06_queue, C06_queue2 (atomic_intrusive_queue),
   C06_pool (static_thread_pool, new_thread_context).
 -/
 import UnifexModel.Lemmas.EventLoop
 import UnifexModel.Lemmas.Trampoline
+import UnifexModel.Lemmas.AtomicQueue
 
 namespace Unifex.Props.C06
 open Unifex.Core
@@ -174,5 +178,61 @@ example : (exec ⟨2, .node 0 false [.node 1 false [], .node 2 false [.node 3 fa
     = [.defer 2, .defer 6, .defer 4] := by decide +kernel
 
 end Tramp
+
+section Queue
+open Unifex.Proto.AtomicQueue
+
+/-- Conservation, in FIFO order: the items pushed so far (in the order of their successful CAS) are
+    exactly the items received ++ the batch in the consumer's hands ++ the pending ones, oldest
+    first — nothing lost, nothing duplicated, nothing reordered. -/
+theorem queue_conservation (cfg : Config) (s : St) (h : Reach (sys cfg) s) :
+    s.enqd = s.deq ++ s.batch ++ s.head.items.reverse :=
+  (inv_reach cfg h).sh.cons
+
+/-- The inactive→active transition is reported to exactly one caller: the number of callers told
+    "you woke the queue up" plus (1 if the queue is inactive now) equals the number of inactive
+    periods begun (successful mark-inactive operations, plus 1 if constructed inactive). -/
+theorem queue_inactive_told_to_exactly_one (cfg : Config) (s : St) (h : Reach (sys cfg) s) :
+    s.told + b2n (s.head == .inactive) = s.inact + b2n cfg.initInactive :=
+  (inv_reach cfg h).sh.told1
+
+/-- No item is lost when an enqueue races with try_mark_inactive: whenever the sentinel is in
+    `head_`, everything pushed so far has been received and the consumer is (about to be) asleep. -/
+theorem queue_inactive_means_drained (cfg : Config) (s : St) (h : Reach (sys cfg) s)
+    (hi : s.head = .inactive) : s.enqd = s.deq ∧ (s.cpc = cSleepObs ∨ s.cpc = cSleep) := by
+  have hv := (inv_reach cfg h).sh
+  have hc := hv.inact hi
+  have hb : s.batch = [] := hv.bat (by rcases hc with hc | hc <;> omega)
+  have := hv.cons
+  rw [hb, hi] at this
+  exact ⟨by simpa [Head.items] using this, hc⟩
+
+/-- No lost wake-up: if the consumer sleeps while the queue is active (somebody pushed), then a
+    wake-up is pending or a producer that was told has yet to send it (its next step is enabled). -/
+theorem queue_no_lost_wakeup (cfg : Config) (s : St) (h : Reach (sys cfg) s)
+    (hc : s.cpc = cSleep) (hn : s.head ≠ .inactive) : s.wake > 0 ∨ s.told > s.sigs := by
+  have hv := (inv_reach cfg h).sh
+  have h1 := hv.told1
+  have h2 := hv.wk
+  have h3 := hv.phase
+  have hc' : s.cpc = 5 := hc
+  rw [if_pos (Or.inr hc')] at h3
+  have : (s.head == Head.inactive) = false := by
+    cases hh : s.head with
+    | inactive => exact absurd hh hn
+    | list l => rfl
+  rw [this] at h1
+  simp only [b2n, Bool.false_eq_true, if_false] at h1
+  unfold periods at h1 h3
+  omega
+
+/-- The consumer's `exchange(nullptr)` never meets the sentinel or an empty queue (the code's
+    UNIFEX_ASSERTs hold), and wake-ups are sent only by producers that were told. -/
+theorem queue_exchange_safe (cfg : Config) (s : St) (h : Reach (sys cfg) s) :
+    s.bad = 0 ∧ s.sigs ≤ s.told := by
+  have hv := inv_reach cfg h
+  exact ⟨hv.sh.bad0, by have := hv.th.sg; omega⟩
+
+end Queue
 
 end Unifex.Props.C06
